@@ -83,7 +83,9 @@ def run_fmt(prop, ev, which):
                           "unwrap in the executed code carries a panic obligation")
     ev.functions.update(["fields::*::parse for the single-line field types listed in mtsym/fmtcheck.py (DECIDED, PANIC_ONLY)",
                          "fields::swift_utils::{parse_amount,parse_exact_length,parse_max_length,parse_swift_chars,parse_currency,...}"])
-    ev.bounds.append("input strings of at most 60 characters, printable ASCII and line breaks")
+    ev.bounds.append("input strings of at most 60 characters, printable ASCII and line breaks; for the non-ASCII panic query: valid UTF-8 "
+                     "texts of at most 24 bytes (1- to 3-byte characters), one solver character per byte, every slice obliged to start and "
+                     "end on a character boundary")
     ev.outside.append("multi-line field formats and parsers built on str::split / lines / char_indices; non-ASCII input; the reject-inside-format "
                       "direction (semantic conditions such as calendar dates are outside the regular format)")
     # a known finding excludes its tolerated language from the query; it is reported once per run
